@@ -81,6 +81,25 @@ PROPS = {
              "dimension or a read after a write. Distinct = hash of the decoded case.",
         assumptions=COMMON_ASSUME + ["descriptors conform to the data"],
     ),
+    "C18": dict(
+        bin="h_access", sub="c18", level="exploration",
+        technique="rapidcheck-generated unit triples (20 prefixes x 31 base units x powers -3..3, plus different base / power / non-SI strings) against the closed form and the algebraic laws; metamorphic retrieval: the same tag / multi-tag / slice request in the dimension's unit and in a prefix-scaled unit with rescaled values",
+        level_text="(a) units a, b, c built from every SI prefix, every base unit of the library's list and powers +-1..3: splitUnit returns "
+                   "the parts, isScalable is symmetric and true exactly for equal base and power, getSIScaling(a,b) = 10^(power*(exp_a-exp_b)) "
+                   "within 1e-12 relative, f(a,b)*f(b,a) = 1, f(a,b)*f(b,c) = f(a,c) within 1e-12, different base / power / non-SI strings "
+                   "are not scalable and getSIScaling throws; (b) arrays whose sampled / range dimensions carry units with any of the 20 "
+                   "prefixes; one request with values in the dimension's unit and the same request with every value divided by the factor "
+                   "of a generated other prefix, through Tag, MultiTag and dataSlice, both modes: both must fail, or both return the same "
+                   "shape and the same elements",
+        level_note="tolerance 1e-12 relative for factors (products of decimal literals are not exact in binary); retrieval uses positions "
+                   "inside sample intervals, cases whose rescaled values do not map back to within 1e-6 of a sample step are excluded and "
+                   "counted; all units of one triple use the same power notation",
+        quick=dict(cases=700, size=200, workers=16, timeout=1800),
+        thorough=dict(cases=20000, size=200, workers=16, timeout=14400),
+        rule="tape -> {unit algebra | retrieval pair}. Non-trivial: a multi-letter base unit with prefix and power (mmol^2, mSv^-1, ...), a "
+             "rejected pair, or a retrieval pair whose two requests use different prefixes. Distinct = hash of the decoded case.",
+        assumptions=COMMON_ASSUME,
+    ),
     "C07": dict(
         bin="h_access", sub="c07", level="exploration",
         technique="rapidcheck-generated axes and positions (on, one ulp beside, between, beyond coordinates) against a brute-force search over the axis",
